@@ -28,17 +28,20 @@ def _run_shard(idx_range):
 
 
 def pmap(ctx, fn, items, nprocs=None, chunk=None):
-    """Run fn(collector, item) for EVERY item (complete enumeration – no sampling), sharded over forked
-    workers; merge the collectors into ctx.  Items are kept in the parent and inherited through fork, so
-    they need not be picklable; the collectors travel back by pickle."""
-    global _job_fn, _job_items
+    """Run fn(collector, item) for EVERY item (complete enumeration - no sampling), sharded over forked child processes (one fork per
+    shard); merge the collectors into ctx.  Items are inherited through fork, so they need not be picklable; collectors travel back
+    through files.  A child killed by a signal (e.g. a segfault inside a compiled kernel) does not hang the run: its shard is split into
+    single items, re-run, and the crashing item is reported as a violation with key '<property>:crash'."""
+    import pickle
+    import signal
+    import tempfile
     items = list(items)
     n = len(items)
     if n == 0:
         return
     nprocs = nprocs or ctx.nprocs
     nprocs = max(1, min(nprocs, n))
-    if nprocs == 1 or os.environ.get('VERIF_SERIAL'):
+    if os.environ.get('VERIF_SERIAL'):
         for it in items:
             try:
                 fn(ctx, it)
@@ -47,14 +50,68 @@ def pmap(ctx, fn, items, nprocs=None, chunk=None):
         return
     if chunk is None:
         chunk = max(1, n // (nprocs * 8))
-    ranges = [(lo, min(n, lo + chunk)) for lo in range(0, n, chunk)]
-    _job_fn, _job_items = fn, items
+    queue = [(lo, min(n, lo + chunk)) for lo in range(0, n, chunk)]
+    queue.reverse()
+    scratch = os.path.join(os.path.dirname(os.path.dirname(os.path.abspath(__file__))), '.scratch')
+    os.makedirs(scratch, exist_ok=True)
+    tmpdir = tempfile.mkdtemp(prefix='pmap_', dir=scratch)
+    running = {}
     sys.stdout.flush()
     sys.stderr.flush()
-    with _FORK.Pool(nprocs) as pool:
-        for col in pool.imap_unordered(_run_shard, ranges):
-            ctx.merge(col)
-    _job_fn = _job_items = None
+    try:
+        while queue or running:
+            while queue and len(running) < nprocs:
+                lo, hi = queue.pop()
+                out = os.path.join(tmpdir, '%d_%d.pkl' % (lo, hi))
+                pid = os.fork()
+                if pid == 0:
+                    # child
+                    code = 1
+                    try:
+                        col = Collector()
+                        for i in range(lo, hi):
+                            try:
+                                fn(col, items[i])
+                            except Exception:
+                                col.violation('harness:exception', {'item': repr(items[i])[:400]}, traceback.format_exc()[-1500:])
+                        with open(out + '.tmp', 'wb') as f:
+                            pickle.dump(col, f, protocol=pickle.HIGHEST_PROTOCOL)
+                        os.replace(out + '.tmp', out)
+                        code = 0
+                    except BaseException:
+                        try:
+                            traceback.print_exc()
+                        except Exception:
+                            pass
+                    finally:
+                        os._exit(code)
+                running[pid] = (lo, hi, out)
+            pid, status = os.wait()
+            if pid not in running:
+                continue
+            lo, hi, out = running.pop(pid)
+            ok = os.WIFEXITED(status) and os.WEXITSTATUS(status) == 0 and os.path.exists(out)
+            if ok:
+                with open(out, 'rb') as f:
+                    ctx.merge(pickle.load(f))
+                os.unlink(out)
+            elif hi - lo > 1:
+                for i in range(hi - 1, lo - 1, -1):
+                    queue.append((i, i + 1))
+            else:
+                sig = os.WTERMSIG(status) if os.WIFSIGNALED(status) else None
+                it = items[lo]
+                case = it if isinstance(it, dict) else {'item': repr(it)[:400]}
+                what = ('killed by signal %d (%s)' % (sig, signal.Signals(sig).name)) if sig else 'exit status %r' % (os.WEXITSTATUS(status) if os.WIFEXITED(status) else status)
+                ctx.violation('%s:crash' % getattr(ctx, 'pid', 'harness'), case, 'the process evaluating this case died: ' + what)
+    finally:
+        import shutil
+        for pid in list(running):
+            try:
+                os.kill(pid, signal.SIGKILL)
+            except Exception:
+                pass
+        shutil.rmtree(tmpdir, ignore_errors=True)
 
 
 def product_dicts(**axes):
